@@ -74,6 +74,9 @@ var (
 )
 
 func c13Check(c *fw.Ctx, layout geom.Layout, pts []ipt, via int, class string) {
+	if c.R.Chance(1, 64) {
+		xyRefusedCalls(c)
+	}
 	stride := layout.Stride()
 	flat := make([]float64, 0, len(pts)*stride)
 	// one input in three writes some of its zero ordinates as -0: the same point
